@@ -102,7 +102,7 @@ def jobs(tier):
                     continue
                 if kind == 'early' and not has_out:
                     continue
-                masks = [[], sorted(t['types'])] if q else list(T.sync_masks(t, 'all' if len(t['types']) <= 2 else 'extremes'))
+                masks = [[], sorted(t['types'])] if (q or 'init' in name) else list(T.sync_masks(t, 'all' if len(t['types']) <= 2 else 'extremes'))
                 for sync in masks:
                     for cache in ((True, False) if (not q or kind == 'early') else (True,)):
                         cfg = {'until': 3, 'K': 3, 'cache': cache, 'lazy': True, 'D': 0, 'sync': sync, 'salt': 0}
